@@ -308,6 +308,7 @@ type vC17Sim struct {
 	mu        sync.Mutex
 	epochs    []vC17Epoch
 	reported  []bool
+	repAt     [][]time.Duration // virtual times at which the router reported each peer (ascending)
 	sends     map[int32][]vC17Send
 	addrs     []ma.Multiaddr
 	addrBytes [][]byte
@@ -368,7 +369,7 @@ func vC17NewSim(c *vh.Case, r, deadPct int, routerLat, sendLat time.Duration, me
 	p := vC17Pool()
 	selfH, _ := mh.Sum([]byte(fmt.Sprintf("vC17-self-%d", c.R.Int63())), mh.SHA2_256, -1)
 	s := &vC17Sim{c: c, pool: p, self: peer.ID(selfH), base: time.Now(), r: r, salt: c.R.Uint64(), deadPct: deadPct,
-		provideClause: "provide-bound", provideSig: "provide/not-advertised", reported: make([]bool, len(p.peers)), sends: map[int32][]vC17Send{},
+		provideClause: "provide-bound", provideSig: "provide/not-advertised", reported: make([]bool, len(p.peers)), repAt: make([][]time.Duration, len(p.peers)), sends: map[int32][]vC17Send{},
 		targets: map[[2]int32][]int32{}, model: map[int32]*vC17KeyModel{}, flakyDone: map[[3]int32]bool{}, flakyLast: map[vC17Job]bool{}}
 	s.routerLat.Store(int64(routerLat))
 	s.sendLat.Store(int64(sendLat))
@@ -448,6 +449,7 @@ func (s *vC17Sim) GetClosestPeers(ctx context.Context, k string) ([]peer.ID, err
 	out := make([]peer.ID, len(near))
 	for i, m := range near {
 		s.reported[m] = true
+		s.repAt[m] = append(s.repAt[m], time.Since(s.base))
 		out[i] = peer.ID(s.pool.peers[m].raw)
 	}
 	return out, nil
@@ -842,9 +844,56 @@ func (s *vC17Sim) capHit(k int32, lo, hi time.Duration) (bool, string) {
 	return false, ""
 }
 
+// smallSwarmUnreported: besides the lookup cap the exploration stops after maxConsecutiveNoFreshPeers (2) lookups that
+// return no fresh peer ("we've likely found all peers in the region", provider.go) - a documented heuristic that
+// misjudges only swarms barely larger than the router's K, where two answers of K peers can coincide although peers
+// remain. The property speaks of the nearest peers "as reported by the closest-peers router": in a swarm of fewer than
+// 3K peers a miss is an observation, not a verdict, when at least one of the missing target peers was not reported by
+// the router at all during the exploration that preceded the key's sends of that epoch (from 10 minutes before the
+// first to the last of them).
+func (s *vC17Sim) smallSwarmUnreported(k int32, lo, hi time.Duration) (bool, string) {
+	for e := range s.epochs {
+		if s.epochs[e].start > hi || s.epochEnd(e) < lo || len(s.epochs[e].members) >= 3*vC17K {
+			continue
+		}
+		first, last := time.Duration(-1), time.Duration(-1)
+		for _, sd := range s.sends[k] {
+			if int(sd.epoch) == e && sd.t >= lo && sd.t <= hi {
+				if first < 0 {
+					first = sd.t
+				}
+				last = sd.t
+			}
+		}
+		if first < 0 {
+			continue
+		}
+		var unrep []string // judged after the run has ended: no concurrent writer of repAt any more
+		for _, p := range s.target(k, e) {
+			seen := false
+			for _, t := range s.repAt[p] {
+				if t >= first-10*time.Minute && t <= last {
+					seen = true
+					break
+				}
+			}
+			if !seen {
+				unrep = append(unrep, fmt.Sprintf("%x", s.pool.peers[p].raw[:4]))
+			}
+		}
+		if len(unrep) > 0 {
+			return true, fmt.Sprintf("swarm of %d peers (< 3K): target peers %v were not reported by the router during the exploration preceding these sends (it ended by its no-fresh-peers heuristic)", len(s.epochs[e].members), unrep)
+		}
+	}
+	return false, ""
+}
+
 // allocSig chooses the signature of "advertised, but not to the r nearest".
 func (s *vC17Sim) allocSig(v *vC17Verdict, k int32, lo, hi time.Duration) (*int, string, string) {
 	if hit, what := s.capHit(k, lo, hi); hit {
+		return &v.capFail, vC17CapSig, "; " + what
+	}
+	if hit, what := s.smallSwarmUnreported(k, lo, hi); hit {
 		return &v.capFail, vC17CapSig, "; " + what
 	}
 	return &v.allocFail, "alloc/not-r-nearest", ""
@@ -1062,7 +1111,10 @@ func (s *vC17Sim) evaluate(end time.Duration, windows bool) vC17Verdict {
 				}
 				v.stopJudged++
 				for _, sd := range s.sends[k] {
-					if sd.t > sg.e+slack && sd.t < until {
+					// "not re-advertised in LATER CYCLES": a batch that was in flight when the stop arrived may fail and be
+					// retried once on the provider's 5-minute retry tick (failedProvide puts its keys back), within the
+					// allowed delay of the current cycle; only sends later than that are re-advertisements
+					if sd.t > sg.e+slack+10*time.Minute && sd.t < until {
 						report(&v.stopFail, "stop", "stop/readvertised", "key %s… stopped at +%v, ADD_PROVIDER to peer %x at +%v (slack %v)", vC17Bits(&s.pool.keys[k].kad, 16), sg.e.Round(time.Millisecond), s.pool.peers[sd.peer].raw[:6], sd.t.Round(time.Millisecond), slack)
 						break
 					}
